@@ -89,48 +89,107 @@ def isDirectiveE : E → Bool
   | _ => false
 
 mutual
-/-- documents selected by a query of the documented grammar; `none` = a value outside the documented ones
-    (e.g. `archived:maybe`), an unknown atom, or `-` applied to a directive -/
-def semQ (O : Oracle) (c : Corpus) (cm : CaseMode) (q : Qy) : Option Bits :=
+/-- documents selected by a query of the documented grammar (total; `definedQ` says whether every value is one
+    the documentation defines) -/
+def semQ (O : Oracle) (c : Corpus) (cm : CaseMode) (q : Qy) : DocPred :=
   let cm' := match caseOfQ q none with
     | some m => m
     | none => cm
-  match semOr O c cm' q with
-  | none => none
-  | some v =>
-    -- `type:repo` (value 3) lifts to repositories; the other result types select the same documents.
-    some (if (typesOfQ q).contains 3 then repoLift c v else v)
-def semOr (O : Oracle) (c : Corpus) (cm : CaseMode) : Qy → Option Bits
+  -- `type:repo` (value 3) lifts to repositories; the other result types select the same documents.
+  if (typesOfQ q).contains 3 then repoLift c (semOr O c cm' q) else semOr O c cm' q
+def semOr (O : Oracle) (c : Corpus) (cm : CaseMode) : Qy → DocPred
   | .one cj => semC O c cm cj
-  | .or cj r => match semC O c cm cj, semOr O c cm r with
-    | some a, some b => some (orB a b)
-    | _, _ => none
-def semC (O : Oracle) (c : Corpus) (cm : CaseMode) : Cj → Option Bits
+  | .or cj r => fun d => semC O c cm cj d || semOr O c cm r d
+def semC (O : Oracle) (c : Corpus) (cm : CaseMode) : Cj → DocPred
   | .one e => semE O c cm e
-  | .cons e r => match semE O c cm e, semC O c cm r with
-    | some a, some b => some (andB a b)
-    | _, _ => none
-def semE (O : Oracle) (c : Corpus) (cm : CaseMode) : E → Option Bits
+  | .cons e r => fun d => semE O c cm e d && semC O c cm r d
+def semE (O : Oracle) (c : Corpus) (cm : CaseMode) : E → DocPred
   | .atom f _ _ text name =>
-    if f = .lang ∧ (O.lang text).isNone then some (allB c false)   -- an unknown language matches nothing
-    else match keyOf O f text name with
-      | none => none
-      | some k =>
-        let cs := if caseMatters f then (match cm with | some b => b | none => hasUpper text) else true
-        c.truth k cs
-  | .caseD _ => some (allB c true)     -- directives select nothing by themselves
-  | .typeD _ _ => some (allB c true)
-  | .neg e => if isDirectiveE e then none else (semE O c cm e).map notB
+    match keyOf O f text name with
+    | none => fun _ => false          -- an unknown language matches nothing
+    | some k =>
+      let cs := if caseMatters f then (match cm with | some b => b | none => hasUpper text) else true
+      c.truth k cs
+  | .caseD _ => fun _ => true         -- directives select nothing by themselves
+  | .typeD _ _ => fun _ => true
+  | .neg e => fun d => !(semE O c cm e d)
   | .grp _ _ q => semQ O c cm q
 end
 
-def showBits (b : Bits) : String := String.ofList (b.map fun x => if x then '1' else '0')
+mutual
+/-- every value is one the documentation defines, `-` is not applied to a directive, and every group has at
+    most one `type:` directive -/
+def definedQ : Qy → Bool
+  | q => definedOr q && decide ((typesOfQ q).length ≤ 1)
+def definedOr : Qy → Bool
+  | .one c => definedC c
+  | .or c r => definedC c && definedOr r
+def definedC : Cj → Bool
+  | .one e => definedE e
+  | .cons e r => definedE e && definedC r
+def definedE : E → Bool
+  | .atom f _ _ text _ =>
+    match f with
+    | .archived | .fork | .pub => text = bYes || text = bNo
+    | _ => true
+  | .caseD fl => decide (fl ≤ 2)
+  | .typeD _ v => decide (v ≤ 3)
+  | .neg e => !isDirectiveE e && definedE e
+  | .grp _ _ q => definedQ q
+end
 
-/-- C06 for one query and corpus: `impl` is what the implementation did (`some bits` = the documents the real
+/-! ## what the parser's token loop is meant to collect for a grammar tree
+
+`itemsQ` is the list `parseExprList`'s token loop should hand to its post-processing (`finishList`) when it reads
+`renderQ g` — one item per expression, `orOp` between conjunctions — built with the parser's own `atomOf`,
+`finishList` and `parseOperators` (C07/Model.lean); only the byte-level tokenizer is abstracted.
+`abstractParse` then runs the rest of `Parse` on it. -/
+
+def tokTypeOf : Field → Nat
+  | .text => tokText | .content => tokContent | .file => tokFile | .regex => tokRegex | .repo => tokRepo
+  | .sym => tokSym | .branch => tokBranch | .lang => tokLang | .archived => tokArchived | .fork => tokFork
+  | .pub => tokPublic | .metaF => tokMeta
+
+def tokTextOf (f : Field) (text name : B) : B :=
+  match f with
+  | .metaF => name ++ [58] ++ text
+  | _ => text
+
+def typeNum : Nat → Nat
+  | 0 => 0 | 1 => 1 | 2 => 1 | _ => 2
+
+mutual
+def itemE (O : Oracle) : E → Outcome Q
+  | .atom f _ _ t n =>
+    (atomOf O ⟨tokTypeOf f, tokTextOf f t n, []⟩).bind fun r =>
+      match r with
+      | some q => .ok q
+      | none => .err "no expression"
+  | .caseD fl => .ok (.caseQ (caseWord fl))
+  | .typeD _ v => .ok (.type (typeNum v) .nil)
+  | .neg e => (itemE O e).bind fun q => if isDirective q then .err "'-' applied to a directive" else .ok (.not q)
+  | .grp _ _ q => (itemsQ O q).bind fun items => (finishList items).bind fun qs => parseOperators qs
+def itemsC (O : Oracle) : Cj → Outcome (List Q)
+  | .one e => (itemE O e).bind fun q => .ok [q]
+  | .cons e r => (itemE O e).bind fun q => (itemsC O r).bind fun qs => .ok (q :: qs)
+def itemsQ (O : Oracle) : Qy → Outcome (List Q)
+  | .one c => itemsC O c
+  | .or c r => (itemsC O c).bind fun a => (itemsQ O r).bind fun b => .ok (a ++ Q.orOp :: b)
+end
+
+/-- `Parse` after the tokenizer: post-processing of the top-level list, `parseOperators`, `stripCaseScopes` -/
+def abstractTree (O : Oracle) (g : Qy) : Outcome Q :=
+  (itemsQ O g).bind fun items => (finishList items).bind fun qs => (parseOperators qs).bind fun q =>
+  .ok (stripCaseScopes q)
+
+def abstractParse (O : Oracle) (g : Qy) : Outcome Q :=
+  (abstractTree O g).bind simplify
+
+/-- C06 for one query and corpus: `impl` is what the implementation did (`some p` = the documents the real
     search returned, `none` = the real parser rejected the string) -/
-def checkP (O : Oracle) (c : Corpus) (g : Qy) (impl : Option Bits) : Bool :=
-  match semQ O c none g, impl with
-  | some want, some got => want == got
-  | _, _ => false
+def checkP (O : Oracle) (c : Corpus) (g : Qy) (impl : Option (List Bool)) : Bool :=
+  match impl with
+  | some got => (List.range c.n).map (semQ O c none g) == got
+  | none => false
 
 end ZoektModel.C06
